@@ -50,10 +50,41 @@ def run(ctx):
     # 2. iterator re-seek
     # the functions of the iterator that can re-open the tree (found by what they do: `seek_backend_to_last` may be folded into
     # `seek_backend(SeekTo::Last, ..)`)
-    REFRESHERS = sorted(p_ for p_, b_ in F.bodies.items() if p_.startswith('btree::iter::BTreeIterator') and '{closure' not in p_ and b_.call_sites('btree::btree::BTree::open', 're:BTreeTable::with_locked$')
-                        and lib.sites_reaching(b_, ['btree::btree::BTree::open']) and any(n == 'record_id' and 1 <= l <= b_.argc for l, n in b_.names.items()))
-    ctx.ob('2a0 refresh-functions', 'anchor', 'btree::iter::BTreeIterator', 'the iterator has at least two functions that re-open the tree when the record id moved (stepping and seeking)', len(REFRESHERS) >= 2, str(REFRESHERS))
+    # DIRECT: the bodies that hold the comparison and the re-open themselves (possibly one shared helper `reopen(record_id, ..)`);
+    # REFRESHERS: the iterator's methods from which a re-open is reached, directly or through such a helper
+    DIRECT = sorted(p_ for p_, b_ in F.bodies.items() if p_.startswith('btree::iter::') and '{closure' not in p_ and b_.call_sites('btree::btree::BTree::open', 're:BTreeTable::with_locked$')
+                    and lib.sites_reaching(b_, ['btree::btree::BTree::open']) and any(n == 'record_id' and 1 <= l <= b_.argc for l, n in b_.names.items()))
+    REFRESHERS = sorted(p_ for p_, b_ in F.bodies.items() if p_.startswith('btree::iter::BTreeIterator') and '{closure' not in p_
+                        and (p_ in DIRECT or b_.call_sites(*DIRECT) if DIRECT else False) and any(n == 'record_id' and 1 <= l <= b_.argc for l, n in b_.names.items()))
+    ctx.ob('2a0 refresh-functions', 'anchor', 'btree::iter::BTreeIterator', 'the iterator has at least two functions that re-open the tree when the record id moved (stepping and seeking)', len(REFRESHERS) >= 2 and len(DIRECT) >= 1, '%s / %s' % (REFRESHERS, DIRECT))
+    # the two record ids move together: the tree remembers the record it was opened for (BTree.record_id, compared above), the cursor
+    # state remembers the record its position belongs to (BTreeIterState.record_id, compared by iter_inner to discard a parked
+    # entry). Whoever re-opens the tree for a new record also moves the cursor's id - otherwise every later step takes the parked
+    # tree entry for stale and drops it (seed C04-seek-to-last-keeps-stale-record-id)
     for fn in REFRESHERS:
+        b = ctx.body(fn)
+        if not b:
+            continue
+        stores = [bi for bi in b.normal_blocks() for st in b.blocks[bi]['s'] if st['k'] == 'assign' and any(isinstance(e, str) and e.endswith('.BTreeIterState.record_id') for e in st['p'][1:])]
+        starts = []
+        for s_ in b.call_sites('btree::btree::BTree::open', 're:BTreeTable::with_locked$'):
+            if s_ in b.normal_blocks() and lib.sites_reaching(b, ['btree::btree::BTree::open']):
+                starts.append(list(b.succ(s_)))
+        for s_ in (b.call_sites(*[d_ for d_ in DIRECT if d_ != fn]) if DIRECT else []):
+            edges = lib.bool_outcome_edges(b, [s_])
+            if edges:
+                starts += [[tr[1]] for (sb, tr, fa) in edges]      # the helper says whether it re-opened: only the true edge matters
+            else:
+                starts.append(list(b.succ(s_)))
+        bad = None
+        for st_ in starts:
+            w = b.find_path(st_, b.return_blocks(), removed=set(stores) | core.error_exit_blocks(b))
+            if w:
+                bad = lib.short_path(b, w)
+        ctx.ob('2r cursor-record-id-follows-the-reopened-tree %s' % fn, 'K1-must-pass', fn,
+               'every success path on which the tree was re-opened for a new record id also stores that id in the cursor state (BTreeIterState.record_id)',
+               bool(starts) and bad is None, 'no re-open site' if not starts else 'success path after a re-open without the store: %s' % bad)
+    for fn in DIRECT:
         b = ctx.body(fn)
         if not b:
             continue
